@@ -52,9 +52,9 @@ def gen(params):
     rnd = random.Random(params.get("seed", 0))
 
     def P(s):
-        return {"prog": [{"op": "ctor", "s": T(s), "encoded": False}], "fields": FIELDS}
+        return {"prog": [{"op": "ctor", "s": T(s), "encoded": False}], "fields": FIELDS, "extras": params.get("extras", [])}
     # the 128 x 6 policy table: every ASCII character, literal and escaped (upper/lower), in every component
-    for comp in ("user", "password", "host", "path", "query", "fragment"):
+    for comp in (() if params.get("no_table") else ("user", "password", "host", "path", "query", "fragment")):
         for ch in range(128):
             for form in (chr(ch), "%%%02X" % ch, "%%%02x" % ch):
                 for ctx in ("{}", "a{}b", "{}{}"):
@@ -62,7 +62,11 @@ def gen(params):
         for b in range(128, 256):
             yield P(template(comp, "a%%%02Xb" % b))
     # whole URLs from canonical pools
-    hosts = ["h", "example.com", "a-b.c_d~e", "1.2.3.4", "a%2fb", "xn--bcher-kva.example", "h.", "sub!$&'()*+,;=x"]
+    hosts = ["h", "example.com", "a-b.c_d~e", "1.2.3.4", "a%2fb", "xn--bcher-kva.example", "h.", "sub!$&'()*+,;=x",
+             "[::1]", "[2001:db8::6f]", "[fe80::1%25eth0]", "[1:2:3:4:5:6:7:8]", "[::]", "[2001:db8:0:1::]", "[a::b:0:0:c]",
+             "[fe80::a%25en1]",
+             # near misses: not the RFC 5952 text / not a canonical zone (TLC classifies them; they only count when canonical)
+             "[2001:DB8::1]", "[0:0:0:0:0:0:0:1]", "[::ffff:1.2.3.4]", "[fe80::1%eth0]", "[1::0:0:1]"]
     ports = ["", ":0", ":1", ":80", ":443", ":21", ":8080", ":65535", ":081", ":65536", ":"]
     for _ in range(params["n"]):
         sc = rnd.choice(SCHEMES)
